@@ -21,15 +21,25 @@ WORK = os.path.join(VERIF, ".work")
 KANI_HOME = os.path.expanduser("~/.kani/kani-0.68.0")
 KANI_LIB_C = os.path.join(KANI_HOME, "library/kani/kani_lib.c")
 VERIF_LIB_C = os.path.join(HARNESS, "verif_lib.c")
+VERIF_LIB_TYPED_C = os.path.join(HARNESS, "verif_lib_typed.c")
 
 ENV = dict(os.environ, CARGO_NET_OFFLINE="true")
 ENV.pop("RUSTUP_TOOLCHAIN", None)
 
 # Destructors elided at goto level (T1).  Matched against Kani's pretty names.
+# Only destructors that *free memory of plain data* are elided.  Anything whose Drop has an
+# observable effect (SetLenOnDrop, scope guards, closures that capture such guards, locks,
+# channels, Drain/InPlace helpers) is explicitly excluded — eliding `SetLenOnDrop::drop`
+# would leave `Vec::extend`/`collect` results with length 0.
+_DATA = (r"(erltf::|erltf_serde::|edp_client::|edp_elixir_terms::|terms::RV|bytes::Bytes|bytes::BytesMut|std::string::String|"
+         r"std::vec::Vec<|std::boxed::Box<|std::sync::Arc<|std::collections::BTreeMap<|std::borrow::Cow<|std::io::Error|"
+         r"std::io::error|nom::|std::option::Option<|std::result::Result<|\(|\[)")
 T1_DEFAULT = [
-    r"^std::ptr::drop_in_place::<.*(OwnedTerm|BorrowedTerm|InternalFun|ExternalPid|ExternalPort|ExternalReference|ExternalFun|BigInt|Atom|Arc<str>|Bytes|DecodeError|EncodeError|ContextualDecodeError|ParsingContext|PathSegment|ControlMessage|BytesMut|std::string::String|Vec<u8>|Cow<|nom::Err|nom::error::Error|erltf::errors::Error|erltf_serde::|io::Error|std::io::error).*>$",
-    r"^<.*as std::ops::Drop>::drop$",
+    r"^std::ptr::drop_in_place::<%s.*>$" % _DATA,
+    r"^<(std::vec::Vec<|alloc::raw_vec::RawVec|std::boxed::Box<|std::sync::Arc<|std::collections::BTreeMap<|"
+    r"alloc::collections::btree::|bytes::|std::vec::IntoIter<|alloc::sync::).* as std::ops::Drop>::drop$",
 ]
+T1_NEVER = r"closure|Guard|SetLenOnDrop|Drain|Dropper|InPlace|Hole|Mutex|RwLock|Lock|oneshot|mpsc|Notify|Waker|Sender|Receiver|Fill|Merge|CopyOnDrop|InsertionHole"
 
 CBMC_BASE = [
     "cbmc", "--no-malloc-may-fail", "--no-undefined-shift-check", "--no-signed-overflow-check",
@@ -44,7 +54,7 @@ class Harness:
 
     def __init__(self, name, desc, unwind=None, unwindset=None, cuts=None, t1=True, t1_extra=None,
                  cap_s=120, mem_gb=10, sample=None, alloc_cap=False, nontrivial=True, keep_drop=None,
-                 pointer_checks=False, group=None, recursion=None):
+                 pointer_checks=False, group=None, recursion=None, typed_heap=False):
         self.name = name
         self.desc = desc
         self.unwind = unwind
@@ -61,6 +71,7 @@ class Harness:
         self.pointer_checks = pointer_checks
         self.group = group or name
         self.recursion = recursion or []   # [(pretty-name regex, max recursion depth)]
+        self.typed_heap = typed_heap       # T4: word-typed heap objects (keeps enum niches constant; slow for union-heavy values)
 
 
 def sh(cmd, **kw):
@@ -182,7 +193,7 @@ def prepare(h, symtab, mangled, prettymap, wd):
     """goto-cc link + kani-driver's instrumentation + T1/T2/T3.  Returns (goto path, info)."""
     os.makedirs(wd, exist_ok=True)
     g = os.path.join(wd, "h.goto")
-    lib = VERIF_LIB_C if h.alloc_cap else KANI_LIB_C
+    lib = VERIF_LIB_TYPED_C if h.typed_heap else VERIF_LIB_C   # kani_lib.c + T3 allocation budget (+ T4)
     steps = [
         ["goto-cc", symtab, lib, "-o", g],
         ["goto-cc", g, "--function", mangled, "-o", g],
@@ -218,7 +229,8 @@ def prepare(h, symtab, mangled, prettymap, wd):
         if h.cuts and _match_any(h.cuts, pretty):
             cut.append(m)
             info["cuts"].append(pretty)
-        elif h.t1 and _match_any(T1_DEFAULT + h.t1_extra, pretty) and not _match_any(h.keep_drop, pretty):
+        elif (h.t1 and _match_any(T1_DEFAULT + h.t1_extra, pretty) and not re.search(T1_NEVER, pretty)
+              and not _match_any(h.keep_drop, pretty)):
             removed.append(m)
             info["t1_removed"].append(pretty)
     def remove_bodies(ms, what):
